@@ -105,6 +105,12 @@ CHECKS = {
   "For six HMAC configurations (inline / versioned secret_refs with overlapping windows / both, default and custom header names) x every window end-point +/-1 s as signed timestamp x every configured signer x clock offsets {-tol-1 ns, -tol, 0, +tol, +tol+1 ns}: every single-bit flip and hex substitution of the signature, every prefix/suffix, structural and encoding variants, every single-character edit of the timestamp, every single-bit flip of the body, path/method variants and missing/empty/blank/renamed/duplicated headers; Basic: every prefix/suffix/case/bit-flip/base64 variant for two users; forward auth: every status 100..599, transport errors and a hang until the timeout. A 202 must be accepted by the independent verifier; everything else must get 401/403/503 as the statement assigns them and leave Stats and the listing identical; the unmodified request must be accepted.",
   "413/429 paths in front of auth are not provoked; requests net/http itself refuses are not evaluated; memory backend.",
   "DESIGN.md §6 C08"),
+
+ "C06": ("enum", "exploration",
+  "complete enumeration of the classification table and of retry configurations, and bounded-exhaustive enumeration of target-behaviour histories, on the real PushDispatcher in virtual-time bubbles with real stores and a scripted target, against a reference written from the statement",
+  "(a) every status 100..599 and 8 error shapes x attempt 1..max+2 x max {1,2,3} through the in-memory Deliverer and the real HTTPDeliverer: ack / retry / dead(reason) and one attempt record per send must equal the reference table; (b) every compile-accepted retry configuration of the DSL grid x attempts up to 70 x harness-answered jitter draws {0, 0.5, largest float < 1}: the nack delay lies in [m(1-j), m(1+j)], m = min(base*2^(a-1), cap), in big-integer arithmetic; (c) every script of target behaviours {2xx, 503, 429, 404, 302, hang, policy denial} of length max+2 (plus a DLQ requeue cycle) on single- and two-target routes, 1-4 workers, memory and SQLite stores with and without the batch extension: at most max+1 sends per cycle, terminal delivered or dead with the right reason, each retry within the window after the failure in virtual time, one attempt row per send; (d) Drain requested during a micro-batch.",
+  "Multi-worker bubbles use the Go scheduler (the per-message oracle does not depend on the schedule); lease mutations are assumed to succeed (property quantifier); Postgres not executed.",
+  "DESIGN.md §6 C06"),
 }
 
 NOT_YET = "check not built yet (work in progress, see DESIGN.md §6)"
